@@ -12,6 +12,7 @@ require (
 )
 
 require (
+	github.com/pion/randutil v0.1.0 // indirect
 	golang.org/x/mod v0.41.0 // indirect
 	golang.org/x/sync v0.23.0 // indirect
 )
